@@ -4,7 +4,7 @@ open DendroModel DendroModel.C13
 
 /-! line protocol of `drv_c13`
   `op schema cfg nstitle nslabels existing coll tree label tail tok tok …`
-  op ∈ blocks | list | tree | yield | dataset;  schema ∈ newick | nexus
+  op ∈ blocks | list | tree | yield | dataset | nosets;  schema ∈ newick | nexus
   cfg = rooting char (n u r U R = None, default-unrooted, default-rooted, force-unrooted, force-rooted) followed by
         four 0/1 flags: store_tree_weights, suppress_internal_node_taxa, suppress_leaf_node_taxa, suppress_edge_lengths,
         optionally followed by two more: exclude_chars, attached namespace (default 1 0, what TreeList.get/Tree.get use;
@@ -112,6 +112,11 @@ def handle (ws : List String) : String :=
         match yieldFrom sch cfg fl toks tail ns with
         | .error e => jErr e
         | .ok (l, ns') => answer ns' (jList (l.map jTree))
+      | "nosets" =>
+        -- is the document in the domain of `yield_eq_list_nexus` / `reader_eq_yielder_partial`?  (hypothesis `hs`, on the list run)
+        if sch == .nexus then
+          toString (Aux.noSetsBlocks cfg fl pseudoSink { (coreOf toks tail ns) with ts := (coreOf toks tail ns).ts.next } ([] : List Tree))
+        else "true"
       | "dataset" =>
         match datasetRead sch cfg fl toks tail ns ((List.range ex).map fun i => [placeholder i]) with
         | .error e => jErr e
